@@ -118,10 +118,24 @@ func runC13(seed int64, n int, dir string, tier string) *Report {
 		rep.OracleEvals++
 		if eqm {
 			f := Failure{What: "Node.Equal does not discriminate: nodes differing in one attribute compare equal", Detail: desc, Input: map[string]any{"a": nodeJSON(a), "b": nodeJSON(mut), "changed": desc}}
-			if hasSeparator(a.VerifFlatString()) {
-				f.Finder = "flat_separator_collision"
-			}
 			rep.Fail(f)
+		}
+		// every single-attribute change, at every nesting level (enumerated by reflection)
+		if i%4 == 0 {
+			pts := gen.MutationPoints(a.ProtoReflect())
+			for k := 0; k < pts; k++ {
+				mk := cloneNode(a)
+				d := gen.MutateAt(mk.ProtoReflect(), k)
+				rep.OracleEvals++
+				if a.Equal(mk) || a.Checksum() == mk.Checksum() {
+					f := Failure{What: "Node.Equal does not discriminate: nodes differing in one attribute compare equal", Detail: d, Input: map[string]any{"a": nodeJSON(a), "b": nodeJSON(mk), "changed": d}}
+					if hasSeparator(gen.LastOld) {
+						f.Finder = "flat_separator_collision"
+					}
+					rep.Fail(f)
+				}
+			}
+			rep.Count("exhaustive_single_attribute_sweeps")
 		}
 		if a.Equal(mut) != mut.Equal(a) {
 			rep.Fail(Failure{What: "Node.Equal is not symmetric", Input: map[string]any{"a": nodeJSON(a), "b": nodeJSON(mut)}})
@@ -225,11 +239,6 @@ func runC13(seed int64, n int, dir string, tier string) *Report {
 				}
 				if f.Finder == "flat_separator_collision_maybe" {
 					f.Finder = ""
-					for _, nd := range la.Nodes {
-						if hasSeparator(nd.VerifFlatString()) {
-							f.Finder = "flat_separator_collision"
-						}
-					}
 				}
 				rep.Fail(f)
 			}
